@@ -45,6 +45,7 @@ func storeDecoder(typ uintptr, dec Decoder, m map[uintptr]Decoder) {
 	for k, v := range m {
 		newDecoderMap[k] = v
 	}
+	verifYield("dec-cache:map-built")
 
 	atomic.StorePointer(&cachedDecoderMap, *(*unsafe.Pointer)(unsafe.Pointer(&newDecoderMap)))
 }
@@ -52,6 +53,7 @@ func storeDecoder(typ uintptr, dec Decoder, m map[uintptr]Decoder) {
 func compileToGetDecoderSlowPath(typeptr uintptr, typ *runtime.Type) (Decoder, error) {
 	decoderMap := loadDecoderMap()
 	if dec, exists := decoderMap[typeptr]; exists {
+		verifDecoder(typeptr, dec, -1)
 		return dec, nil
 	}
 
@@ -60,6 +62,7 @@ func compileToGetDecoderSlowPath(typeptr uintptr, typ *runtime.Type) (Decoder, e
 		return nil, err
 	}
 	storeDecoder(typeptr, dec, decoderMap)
+	verifDecoder(typeptr, dec, -1)
 	return dec, nil
 }
 
